@@ -597,6 +597,23 @@ func (e *Env) call(ex *ECall) Value {
 				t = app("sbase", v.Term)
 			}
 			return boolV(app("<", t, e.st.AllocTerm()))
+		case "tostring":
+			// conversion of a named string type to string (same value)
+			v := e.eval(ex.Args[0])
+			v.Typ = types.Typ[types.String]
+			return v
+		case "tostr":
+			// string(b) for a byte slice b
+			v := e.eval(ex.Args[0])
+			if v.Sort != SSlice {
+				e.errf("tostr needs a []byte")
+			}
+			f := x.D.Fun("bytes.tostr", []string{"(Array Int Int)", SInt}, SStr)
+			inner := Select(x.elemArr(e.st, x.TM.Key(types.Typ[types.Uint8])), app("sbase", v.Term))
+			return Value{Term: app(f, inner, app("slen", v.Term)), Sort: SStr, Typ: types.Typ[types.String]}
+		case "hashable":
+			v := e.eval(ex.Args[0])
+			return boolV(x.hashablePred(v.Term))
 		case "lentany":
 			return boolV(x.lentAny(e.st))
 		case "panicked":
